@@ -5,6 +5,8 @@ import AdfObdd.Bridge
 import AdfObdd.FnRA
 import AdfObdd.FromParserProofs
 import AdfObdd.HybridExample
+import AdfObdd.HybridFacts
+import AdfObdd.CliWorldProofs
 /-! # C01 — the grounded interpretation is the least fixpoint, on every back-end
 
 `Gam D` is the three-valued consequence operator of the acceptance conditions `D` (a statement is
@@ -93,7 +95,13 @@ for the ORIGINAL conditions `ac.map W.den`, and it is the vector biodivine's own
 ASSUMPTIONS ABOUT THE EXTERNAL CRATE (hypotheses, not axioms): `W : Bio.Lawful L n` (its operations
 compute what their names say, BioModel.lean) and `hd : Bio.DumpSpec W dump` (the textual dump of a
 non-constant diagram is an ordered table - two terminal entries first, children before parents, larger
-variables below - whose last entry denotes the diagram; DESIGN §4, checked on every real dump). -/
+variables below - whose last entry denotes the diagram; DESIGN §4). `hd` is an ASSUMPTION, it is not
+checked on real dumps: the harness never sees biodivine's dump text, it validates the BRIDGED native
+table (`wfCheck`, and `isoCheck` against the natively compiled conditions). The assumption about the
+library includes the law of its inherent `restrict` (`Lawful.restrict_spec`: cofactor), which is what
+`ac.restrict(..)` in `adfbiodivine.rs` calls - NOT the file's own `select`-then-`exists`, which is dead
+code. Instances of both hypotheses: truth tables with their decision-tree dump (`Bio.ttDump2_spec`)
+and the project's own reduced, shared diagrams (`Bio.storeLawful`, `Bio.storeDump_spec`, StoreLib.lean). -/
 theorem hybrid_grounded_is_lfp {T : Type} (L : Bio.Lib T) (n : Nat) (W : Bio.Lawful L n)
     (dump : T → List Node) (hd : Bio.DumpSpec W dump) (opt : Bool)
     (ac : List T) (hv : ∀ a ∈ ac, W.Valid a) (hn : ac.length = n) :
@@ -194,6 +202,34 @@ example : parse exT = some (PState.ofFacts exF) ∧ WellFormedAdf exF ∧
   cases hb : fromParser (PState.ofFacts exF) with
   | none => have := fromParser_isSome exF (by decide); rw [hb] at this; cases this
   | some r => exact ⟨r.1, r.2, rfl⟩
+/-- **hybrid back-end from a file with the facts in ANY order** (conditions before declarations, several
+or no condition for a statement, any `formula_order`): the library-side `from_parser` (`CliM.bioBuild`:
+variables from the name list, every condition of the file written at `formula_order[k]`) does not panic
+on a well-formed file whose labels the library accepts, and `hybrid_step_opt(opt)` + native `grounded` on
+its result is the least fixpoint of Γ for `condFns fs` (the last condition written per statement, ⊥ if
+none) - the same framework `grounded_from_text` gives the native arm -/
+theorem hybrid_grounded_from_facts {T : Type} (L : Bio.Lib T) (fs : List Fact)
+    (W : Bio.Lawful L (namesOf fs).length) (dump : T → List Node) (hd : Bio.DumpSpec W dump) (opt : Bool)
+    (hwf : WellFormedAdf fs) (hn : (namesOf fs).length ≤ VBOT)
+    (hnames : (namesOf fs).all CliM.bioNameOK = true) :
+    ∃ (acB : List T) (rw : Option T), CliM.bioBuild L (PState.ofFacts fs) false = some (acB, rw) ∧
+      let r := Bio.hybridStep L dump opt acB
+      IsLfp (condFns fs) ((groundedLoop StoreRA ((namesOf fs).length + 1) r.1 r.2).2.map storeIsConst) := by
+  obtain ⟨acB, rw, hb, hl, hv, hden⟩ := Bio.bioBuild_from_facts L fs W hwf hn hnames false
+  refine ⟨acB, rw, hb, ?_⟩
+  have := (Bio.hybrid_grounded W hd opt acB hv hl).1
+  rw [hden] at this
+  exact this
+
+/-- non-vacuity: `ac(c,and(a,b)).s(a).s(b).s(c).ac(b,a).ac(a,c(v)).` (the condition of `c` before every
+declaration, conditions in the order c, b, a) on the truth-table library with its decision-tree dump:
+grounded through the hybrid pipeline = `T T T`, for both flags -/
+example (opt : Bool) : ∃ acB rw, CliM.bioBuild (Bio.ttLib 3) (PState.ofFacts exF) false = some (acB, rw) ∧
+    IsLfp (condFns exF) ((groundedLoop StoreRA 4 (Bio.hybridStep (Bio.ttLib 3) (Bio.ttDump 3) opt acB).1
+      (Bio.hybridStep (Bio.ttLib 3) (Bio.ttDump 3) opt acB).2).2.map storeIsConst) :=
+  hybrid_grounded_from_facts (Bio.ttLib 3) exF (Bio.ttLawful 3) (Bio.ttDump 3) (Bio.ttDump_spec 3 (by simp [VBOT]))
+    opt (by decide) (by simp [VBOT, exF, namesOf]) (by decide)
+
 -- the evaluation on this text: a ↦ ⊤, b ↦ a, c ↦ a ∧ b at positions 0, 1, 2; grounded = T T T
 #guard ((parse exT).bind fromParser).map (fun r => (groundedLoop StoreRA 4 r.1 r.2).2) == some [1, 1, 1]
 #guard ((parse exT).bind fromParser).map (·.2) == some [1, 2, 5]
